@@ -263,7 +263,7 @@ pub fn gen_case(seed: u64, idx: u64, thorough: bool) -> (HistorySpec, String, bo
 /// (a): with retries disabled, concurrent Ok ops must have disjoint affected sets.
 pub fn check_disjoint_ok(out: &HistoryOutcome, sc: &SerialCheck) -> Vec<Finding> {
     let mut f = vec![];
-    let committed: Vec<(usize, u64)> = sc.commit_order.iter().map(|(v, i)| (*i, *v)).collect();
+    let committed: Vec<(usize, u64)> = sc.commit_order.iter().filter(|x| x.2).map(|(v, i, _)| (*i, *v)).collect();
     let affected = |i: usize| -> Option<BTreeSet<i64>> {
         let r = &out.results[i];
         if r.op.retries() != Some(0) || !r.op.is_row_mutation() || r.result.is_err() {
@@ -384,7 +384,7 @@ async fn one_case(report: &Report, seed: u64, idx: u64, thorough: bool) {
             "case": idx, "overlap": class, "no_retry": no_retry,
             "history": out.spec.describe(),
             "results": out.results.iter().map(|r| r.describe()).collect::<Vec<_>>(),
-            "commit_order": sc.commit_order.iter().map(|(v,i)| json!({"version": v, "actor": out.results[*i].actor})).collect::<Vec<_>>(),
+            "commit_order": sc.commit_order.iter().map(|(v,i,_)| json!({"version": v, "actor": out.results[*i].actor})).collect::<Vec<_>>(),
             "interleaving_head": out.sched.brief(25),
         }));
     }
@@ -406,6 +406,11 @@ pub fn run(args: &Args) -> i32 {
     let seed = args.seed;
     if let Some(path) = &args.replay {
         return replay(args, &report, path);
+    }
+    if let Some(c) = args.extra.get("case").and_then(|c| c.parse::<u64>().ok()) {
+        let rt = tokio::runtime::Builder::new_current_thread().enable_all().build().unwrap();
+        rt.block_on(one_case(&report, seed, c, thorough));
+        return report.finish();
     }
     run_parallel(&report, 16, max_cases, |i| one_case(&report, seed, i, thorough));
     publish_interleavings(&report);
